@@ -10,6 +10,8 @@ Transcribes (src/twisted/logger/_filter.py):
     the `while index > 0` walk over `segments[:index]` → `walk`)
   * `LogLevelFilterPredicate.__call__` → `levelPred`
   * `shouldLogEvent` → `shouldLog`;  `FilteringLogObserver.__call__` → `filterObserve`
+    (`FilteringLogObserver.__init__` keeps `list(predicates)`: the `List Pred` argument is that copy, the same for
+    every event — the tie hands the real constructor lists, tuples and one-shot iterators)
 Levels are `0..4` = `LogLevel.debug < info < warn < error < critical` (`NamedConstant.__lt__` is
 definition order).  Namespaces are `str` = `List Char`.
 -/
